@@ -127,6 +127,12 @@ def c04(chk):
             (r["ev"], r.get("outcome"), r.get("origin"), r.get("old_origin"), r.get("reason"), "removed" in r)
             if r["ev"] in ("ap.add", "ap.remove", "ap.remove_id") and (r.get("outcome") != "new") else None))
     sample_events(chk, s1, ("ap.add", "ap.remove_id", "obs.event"))
+    # connections replaced under RPCs in flight (calls through Network::rpc and Peer handles that fail
+    # with their old connection): nothing but the application's own disconnect() removes a peer by identity
+    s3 = harness("rpc", out=os.path.join(vlib.WORK, "C04_rpcreplace"), mode="replace", faults=0, calls=60, seed=chk.seed,
+                 runs=8 if quick(chk) else 200, jobs=12, files=4)
+    s3["args"] = {"mode": "replace"}
+    trace_check(chk, *CONN_TRACE, s3, label="rpc-replace")
     # (b) several OS threads on the real ActivePeers with real connections; linearised by the
     # sequence number taken under the lock
     st = harness("apstress", seed=chk.seed, runs=4 if quick(chk) else 60, threads=6, ops=150 if quick(chk) else 300,
